@@ -727,13 +727,31 @@ impl GlobalInferenceCtx<'_> {
 
     /// Whatever `get_mutability` found out about how `pointer` was computed, a place reached
     /// through it is not mutable when the *type* of `pointer` is an immutable pointer.
-    fn through_pointer(&self, pointer: Idx<Expr>, res: ExprMutability) -> ExprMutability {
-        match (res, self.tys[self.loc][pointer].as_pointer()) {
-            (ExprMutability::Mutable, Some((false, _))) => {
-                ExprMutability::ImmutableRef(self.bodies.range_for_expr(pointer))
-            }
-            (res, _) => res,
+    ///
+    /// Indexing and member access auto-dereference every pointer level (`auto_deref`),
+    /// an explicit `^` only the outermost one.
+    fn through_pointer(
+        &self,
+        pointer: Idx<Expr>,
+        auto_deref: bool,
+        res: ExprMutability,
+    ) -> ExprMutability {
+        if !matches!(res, ExprMutability::Mutable) {
+            return res;
         }
+
+        let mut ty = self.tys[self.loc][pointer];
+        while let Some((mutable, sub_ty)) = ty.as_pointer() {
+            if !mutable {
+                return ExprMutability::ImmutableRef(self.bodies.range_for_expr(pointer));
+            }
+            if !auto_deref {
+                break;
+            }
+            ty = sub_ty;
+        }
+
+        res
     }
 
     /// `deref` allows certain expressions to be mutable
@@ -751,10 +769,15 @@ impl GlobalInferenceCtx<'_> {
                 _ => ExprMutability::ImmutableRef(self.bodies.range_for_expr(expr)),
             },
             Expr::Deref { pointer } => {
-                self.through_pointer(*pointer, self.get_mutability(*pointer, assignment, true))
+                self.through_pointer(
+                    *pointer,
+                    false,
+                    self.get_mutability(*pointer, assignment, true),
+                )
             }
             Expr::Index { source: array, .. } => self.through_pointer(
                 *array,
+                true,
                 self.get_mutability(
                     *array,
                     assignment,
@@ -850,6 +873,7 @@ impl GlobalInferenceCtx<'_> {
                     }
                     _ => self.through_pointer(
                         *previous,
+                        true,
                         self.get_mutability(
                             *previous,
                             assignment,
